@@ -88,7 +88,9 @@ CLAIMS.update({
  "C17": ("method-set enumeration of ComparableFilter implementors + read-set vs compared-set (non-interference) analysis",
          "other", "Decides for every comparable filter type that Equals asserts its own type and compares, with a trusted comparator pairing the "
          "same field on both sides, every part of the receiver that Accept reads; Accept purity; FiltersEqual's table; compareFilterList's "
-         "length-and-every-index shape. Completeness of equality is not required; DeepEqual on selector internals is trusted.", "DESIGN.md §5 C17"),
+         "length-and-every-index shape. A repository helper counts as a trusted comparator only if its control-flow graph proves it a map equality "
+         "(length test and exhausted range on every path to true; presence-checked lookup and value comparison on every path round the loop). "
+         "Completeness of equality is not required; DeepEqual on selector internals is trusted.", "DESIGN.md §5 C17"),
  "C18": ("shape rules over the SSA paths of every Accept and constructor in package filter",
          "other", "Decides the boolean structure of Null/All/Not/And/Or, the NSName routing and wildcard table, that selector filters are exactly "
          "selector.Matches(obj labels) with no shortcut, the constructor chains, and purity of Accept. Kubernetes selector semantics are delegated.", "DESIGN.md §5 C18"),
@@ -96,11 +98,12 @@ CLAIMS.update({
          "other", "Decides that every workload pods filter sorts a copy of its sources, scopes each element to that source's namespace and uses "
          "selector-or-template-fallback, that the ingress filter collects the default backend and every rule path per ingress independently, and "
          "the kind guards/field pairing of node, involved-object and selector-match filters (presence-checked subset test), and the Accept/constructor shapes of the combinators these filters are built from. One known finding (RC namespace scoping).", "DESIGN.md §5 C19"),
- "C20": ("token-level unification of generated files with their templates + shape rules on the instances + client-go oracle for typed clients",
+ "C20": ("token-level unification of generated files with their templates + shape rules on the instances + client-go oracle for typed clients + cache decision tables (object identity of events and lists)",
          "translation_validation", "Validates all 20 generated files against their templates (one consistent ObjectType binding per typed package; "
          "join template instantiated from the generated signature), and decides template robustness (comma-ok, foreign objects skipped, "
          "non-blocking forwarding, 1:1 forwarders) and that each typed client uses the API group and resource string of client-go's own typed "
-         "client. Differential typed/untyped runs are not performed.", "DESIGN.md §5 C20"),
+         "client; and that the core hands the typed adapters the very objects it was given (event and list columns of the cache tables), without "
+         "which their type assertions would drop what untyped subscribers see. Differential typed/untyped runs are not performed.", "DESIGN.md §5 C20"),
 })
 
 def main():
